@@ -43,7 +43,18 @@ CHECK = {'level': 'exploration',
          '(blocked:broadcast-does-not-return; other shapes fall under the mutex / select / 30 s rules); after all calls returned no goroutine started by a Broadcast call stays parked in Broadcast code (three dumps; goroutines still '
          'inside a per-peer request are waited for and counted); handler runs per (Broadcast call, peer) <= retries+1, attempts on the caller goroutine <= peers x (retries+1); no reply dropped as unknown while its request is outstanding; '
          'pending tables empty; then a fresh request hub -> undisturbed peer and back (1 s timeout) must be served. What Broadcast returns (nil / timeout / context error / dial error) is counted, not asserted; no elapsed time is asserted. '
-         'Non-trivial there = a Broadcast that started with >= 2 connected peers ended with an error or had a per-peer attempt time out while another call of the case was in flight.',
+         'Non-trivial there = a Broadcast that started with >= 2 connected peers ended with an error or had a per-peer attempt time out while another call of the case was in flight. '
+         'Separate generated class "context shapes" (TestContextShapes, 16 cases quick / 100 per thorough shard / 30 per race shard; directed forms TestRegressContextDeadlineBeyondBudget - timeout 50 ms, context deadline 30 s, silent responder: '
+         '4 attempts, timeout error, back within 2.6 s - and TestRegressContextEndsBeforeBudget in every tier): the context of every call is drawn from {context.Background, WithCancel never cancelled, WithCancel cancelled at 0..4.5 T, '
+         'WithTimeout/WithDeadline shorter than one attempt (< 0.8 T), inside the retry budget (1.2..3.8 T), FAR beyond it (10..20 x the elapsed-time bound, i.e. 22..70 s against a budget of 80..200 ms), already expired; half of the deadline contexts '
+         'wrapped in a WithCancel child} and combined with a drawn responder {never answers while the call runs, answers after the timeout in every attempt, late in the first 1-3 attempts then in time, in time, error reply, peer nobody has an address of}. '
+         'Variants: short-timeout (2-3 nodes, T 20-50 ms, 4-24 RequestFrom calls, at most two per worker), broadcast (private star, hub + 1-3 peers in time / silent / late / error reply, T 20-40 ms, 1-2 Broadcast calls and 0-6 RequestFrom calls, each with its own context shape), '
+         'long-timeout (T = 4 s: every call is answered at once or its context ends within 150 ms - short deadline / cancelled / expired - while the responder stays silent). Oracles there, upper bounds only: (A) every call returns within bound = 3 x budget + 2 s '
+         '(budget = (retries+1) x T, x connected peers for Broadcast; at the bound the harness cancels the context itself so no case waits for a far deadline); (B) a call whose context ended while it ran returns within 2 s after that moment (discriminating for T = 4 s); '
+         'A and B count only if the process got >= a quarter of its heartbeats during the call and are reported only when the same call, alone on a fresh case, shows the same suspect 3 times out of 3, otherwise inconclusive; '
+         '(C) a call that returns the timeout error while its context is still alive was SENT retries+1 times (after-send schedule points on the caller\'s goroutine, exact; Broadcast: retries+1 attempts of the caller\'s goroutine timed out) - a deadline beyond the budget does not reduce the number of attempts; '
+         'plus every older oracle (a call whose deadline has passed counts as ended in the lost-reply rule). Which error a call returns (timeout / context error / stream error) is counted, not asserted. '
+         'Non-trivial there = a call with a deadline beyond the response timeout had an attempt whose response timer fired, or a context ended while its call was running.',
  'level_text': 'Generated concurrent request/response workloads between real libp2p hosts with hook-ordered races; every call must return its own '
                'token or an error - also when several concurrent calls are identical in procedure and payload (same request to 2-3 peers / repeated to one peer within one second: '
                'the response must come from the addressed peer for the call\'s own message ID) -, hook-ordered replies must not be dropped, no reply dropped as unknown while its request is '
@@ -51,12 +62,14 @@ CHECK = {'level': 'exploration',
                'goroutine parked in onResponse (goroutine dump), no goroutine of the layer waiting for a mutex or parked in its select beyond the timeout '
                '(three goroutine dumps), a fresh request is served after a late-response storm; every Connection.Broadcast call (hub with 1-6 peers of which a generated '
                'subset is late, silent, answers an error, stops or is disconnected; contexts cancelled before/during the call; concurrent Broadcasts mixed with RequestFrom traffic) returns, leaves no goroutine '
-               'parked in its own code and no pending entry, and fresh requests are served afterwards. Schedules are steered at three points and at the unknown-ID '
+               'parked in its own code and no pending entry, and fresh requests are served afterwards; with the shape of the caller\'s context generated per call (no deadline / cancelled / deadline shorter than one attempt, inside the retry budget, far beyond it, already expired) '
+               'every RequestFrom and Broadcast call returns within 3 x its timeout-and-retry budget + 2 s and within 2 s after its context ended (generous upper bounds, 3-of-3 reproduction), and a timeout error with a live context means retries+1 attempts were sent. Schedules are steered at three points and at the unknown-ID '
                'log line, not enumerated; the Go scheduler is not owned.',
  'level_note': 'Blocked-forever is reported only on positive evidence from goroutine dumps taken while nothing moved for 4 s and the process demonstrably ran '
                '(heartbeats): onResponse parked in a channel send, layer goroutines waiting for a mutex, a requester parked in its select although timer and '
                'context should have ended it, or - shape unknown - callers still inside RequestFrom after 30 s without any event and >= 2000 heartbeats. Only a '
-               'starved process (too few heartbeats) ends a case as inconclusive at the 120 s budget. No latency bound is asserted. A Broadcast that does not return is reported '
+               'starved process (too few heartbeats) ends a case as inconclusive at the 120 s budget. No latency bound is asserted outside the context-shapes class; there only two generous upper bounds (3 x budget + 2 s per call, 2 s after the end of the context), never a lower bound, '
+               'judged only when the process got its heartbeats and confirmed 3 of 3 times on the call alone. A Broadcast that does not return is reported '
                'when its caller is parked in MessageProtocol.Broadcast itself in three dumps and none of the goroutines it started is inside a per-peer request (a Broadcast that legitimately waits for running requests is never evidence).',
  'technique': 'property-based testing (rapid) of concurrent histories with schedule-point steering and invariant/correlation oracles',
  'assumptions': ['dropped replies are observed through the "unknown request ID" warning of onResponse (custom logger); if its text changes only the '
@@ -78,7 +91,10 @@ CHECK = {'level': 'exploration',
                  'broadcast class: goroutines started by a Broadcast call are recognised by the "created by ...MessageProtocol.Broadcast in goroutine N" line of runtime.Stack (Go >= 1.21) with N = the goroutine that '
                  'executed the call; an engine that starts them from a helper with another name is still covered by the caller-side rule (caller parked in Broadcast, nothing inside request()) and by the 30 s no-progress rule',
                  'broadcast class: peers that can only fail are silent / late in every attempt / stopping; a stopping peer fails only from the moment it has stopped, so failing-peers=N is the planned number, not an observed one; '
-                 'the black-hole peers of the stalled-peer class cannot be Broadcast targets (Broadcast addresses connected peers only), the silent peers here are connected hosts whose handler does not return'],
- 'quick': [{'pkg': 'c17', 'checks': 60, 'timeout': 1800, 'shrinktime': '6s', 'env': {'VERIF_C17_STORM': 40, 'VERIF_C17_BCAST': 32}}],
- 'thorough': [{'pkg': 'c17', 'checks': 800, 'shards': 12, 'timeout': 2400, 'gomaxprocs': 4, 'shrinktime': '6s', 'env': {'VERIF_C17_STORM': 200, 'VERIF_C17_BCAST': 150}},
-              {'pkg': 'c17', 'race': True, 'checks': 200, 'shards': 4, 'timeout': 2400, 'gomaxprocs': 4, 'shrinktime': '6s', 'env': {'VERIF_C17_STORM': 60, 'VERIF_C17_BCAST': 50}}]}
+                 'the black-hole peers of the stalled-peer class cannot be Broadcast targets (Broadcast addresses connected peers only), the silent peers here are connected hosts whose handler does not return',
+                 'context-shapes class: elapsed time is read from the wall clock of the test process; a call over its bound is judged only if >= 1/4 of the 5 ms process heartbeats arrived during the call and is reported only after the same call alone exceeded the same bound 3 times out of 3; '
+                 'far deadlines are >= 10 x the bound, so "returned because of its budget" and "returned because of the deadline" cannot be confused; the moment a deadline context ends is taken as its deadline (Go fires the context timer no earlier)',
+                 'context-shapes class, rule C: "a request whose replies are missing is sent retries+1 times whatever the shape of its context" is a metamorphic reading of "timeout and retry budget" (the statement itself only gives the upper bound); it is asserted only for calls that themselves report the timeout error with a live context, where it is exact on an engine whose request() returns that error after its last retry'],
+ 'quick': [{'pkg': 'c17', 'checks': 60, 'timeout': 1800, 'shrinktime': '6s', 'env': {'VERIF_C17_STORM': 40, 'VERIF_C17_BCAST': 32, 'VERIF_C17_CTX': 16}}],
+ 'thorough': [{'pkg': 'c17', 'checks': 800, 'shards': 12, 'timeout': 2400, 'gomaxprocs': 4, 'shrinktime': '6s', 'env': {'VERIF_C17_STORM': 200, 'VERIF_C17_BCAST': 150, 'VERIF_C17_CTX': 100}},
+              {'pkg': 'c17', 'race': True, 'checks': 200, 'shards': 4, 'timeout': 2400, 'gomaxprocs': 4, 'shrinktime': '6s', 'env': {'VERIF_C17_STORM': 60, 'VERIF_C17_BCAST': 50, 'VERIF_C17_CTX': 30}}]}
